@@ -72,6 +72,11 @@ CHECKS = {
          "Servers with three users (same mailbox names, own content). Random batches of all 27 mailbox/message command kinds before LOGIN, after failed LOGINs, without a selection, after CLOSE/UNSELECT and after a failed SELECT: each must be answered NO/BAD, leak no data responses, and leave the complete observation of every user (LIST, LSUB, UIDs, flags, markers) unchanged; CAPABILITY/NOOP/ID still work. 15 wrong user/password combinations in quoted and literal forms never authenticate. One user's 25 random mutating commands (and another user's connector updates) never change what the other users see and no view shows a foreign message. 16 jail scripts (F/S/new-connection sequences, second rounds): the answer after three consecutive failures must not arrive earlier than jail time after the third failing LOGIN was sent.",
          "The jail oracle is a lower bound on wall time (load can only make it pass); it does not show that unjailed logins are prompt. AUTHENTICATE and STARTTLS are not exercised (no TLS configured).",
          "DESIGN.md §4 C18"),
+ "C19": ("exploration",
+         "Go race detector over a stress scenario in child processes, watchdogs with a blocked-vs-slow CPU criterion on every client call, RemoveUser and Close, goroutine count after Close",
+         "Race-detector builds run rounds with two users, 6-12 sessions issuing random commands on shared mailboxes, LOGOUT/re-login, sockets dropped in the middle of a command, connections that never log in, two goroutines of connector updates, then RemoveUser of a busy user and Close of the server. Oracles: no race report (de-duplicated by the pair of outermost gluon frames), no panic or runtime fatal error, every call returns (an expired watchdog counts only when the process is idle, i.e. blocked), and 15 s after Close - with the listener closed but the Serve context still alive - the goroutine count is back at the level before the server was created.",
+         "The harness connector rejects calls for messages the remote no longer has (as a real remote does) and the application side drains Server.GetErrorCh. MessageIDChanged/MailboxIDChanged updates are not part of the stress.",
+         "DESIGN.md §4 C19"),
  "C20": ("exploration",
          "fault-schedule monitor: the harness connector rejects CreateMessage on a schedule; a model of normal mailboxes and of the recovery mailbox is compared with fresh views and LIST after every step",
          "Histories of APPEND (simple, generated MIME trees, undecodable text parts, odd charsets; normal and \\Drafts mailboxes) with the remote accepting, rejecting (plain and wrapped error) or rejecting for size; re-sends of rejected messages while they are in the recovery mailbox and after they left it (MOVE, UID MOVE, COPY, EXPUNGE); two sessions sending the same rejected message at once; APPEND/CREATE/RENAME/DELETE aimed at the recovery mailbox in several spellings; clean restarts. After every step: OK => message under the announced UID with its bytes; rejected => NO and exactly one copy with its bytes in the recovery mailbox; the recovery mailbox is listed exactly while non-empty; protected commands refused without effect; taken-out messages arrive with their bytes.",
